@@ -168,6 +168,11 @@ func (t *Type) UnmarshalJSON(buf []byte) error {
 				if err != nil {
 					return err
 				}
+				for _, name := range optionals {
+					if _, ok := atys[NormalizeString(name)]; !ok {
+						return fmt.Errorf("optional attribute %q is not declared", name)
+					}
+				}
 				*t = ObjectWithOptionalAttrs(atys, optionals)
 			} else {
 				*t = Object(atys)
